@@ -1335,6 +1335,10 @@ class Interp:
                 it = self.call(BoundMethod(m, it), [], {})
         if isinstance(it, OneShotIter):
             it = it.take()
+        if isinstance(it, GhostVal) and getattr(it, "pv_indexed", False) and spec is not None:
+            # a ghost sequence that asks to be traversed by position: the invariant may speak about `idx`
+            self._sym_ghost_loop(s, scope, it, spec, key)
+            return
         if isinstance(it, GhostVal):
             it = it.pv_iter()
         if isinstance(it, RangeVal) and it.step == 1:
@@ -1343,6 +1347,15 @@ class Interp:
             self._sym_list_loop(s, scope, it, spec, key)
         else:
             self._opaque_loop(s, scope, it, spec, key)
+
+    def _mutated_lists(self, body, scope):
+        """local names bound to a list that the loop body (nested loops included) changes in place: they are part of
+        what an iteration modifies whether or not the loop contract lists them (frame soundness)"""
+        out = set()
+        for nm in _mutated_names(body):
+            if isinstance(scope.vars.get(nm), VList):
+                out.add(nm)
+        return out
 
     def _havoc(self, scope, names, spec, unset_unknown=True):
         if spec is not None and getattr(spec, "ghost_havoc", None) is not None:
@@ -1439,7 +1452,7 @@ class Interp:
         var = s.target.id
         start, stop = rng.start, rng.stop
         old = self._snapshot_old(scope)
-        assigned = (_assigned_names(s.body) | set(spec.modifies)) - {var}
+        assigned = (_assigned_names(s.body) | set(spec.modifies) | self._mutated_lists(s.body, scope)) - {var}
         scope.vars[var] = start
         self._check_inv(spec, scope, old, {}, "init", key)
         which = CTX.choose(2)
@@ -1471,7 +1484,7 @@ class Interp:
         if spec is None:
             raise OutOfSubset("loop %s needs an invariant (symbolic list)" % (key,))
         old = self._snapshot_old(scope)
-        assigned = _assigned_names(s.body) | set(spec.modifies) | _assigned_names([ast.Expr(s.target)])
+        assigned = _assigned_names(s.body) | set(spec.modifies) | _assigned_names([ast.Expr(s.target)]) | self._mutated_lists(s.body, scope)
         n = lst.len()
         self._check_inv(spec, scope, old, {"idx": 0}, "init", key)
         which = CTX.choose(2)
@@ -1494,13 +1507,40 @@ class Interp:
             CTX.assume(k.t == _zint(n))
             self._assume_inv(spec, scope, old, {"idx": k})
 
+    def _sym_ghost_loop(self, s, scope, seq, spec, key):
+        """for x in <ghost sequence of symbolic length>: like a list loop, element idx is seq.pv_getitem(idx)"""
+        old = self._snapshot_old(scope)
+        assigned = _assigned_names(s.body) | set(spec.modifies) | _assigned_names([ast.Expr(s.target)]) | self._mutated_lists(s.body, scope)
+        n = seq.pv_len()
+        self._check_inv(spec, scope, old, {"idx": 0}, "init", key)
+        which = CTX.choose(2)
+        self._havoc(scope, assigned, spec)
+        k = SInt(z3.Int(CTX.fresh_name("idx")))
+        if which == 0:
+            CTX.assume(z3.And(0 <= k.t, k.t < _zint(n)))
+            self._assume_inv(spec, scope, old, {"idx": k})
+            self.assign_target(s.target, seq.pv_getitem(k), scope)
+            token = spec.at_head(NS(scope, old, {"idx": k})) if spec.at_head is not None else None
+            r = self._run_body(s.body, scope)
+            if r == "break":
+                if getattr(spec, "at_break", None) is not None:
+                    spec.at_break(NS(scope, old, {"idx": k}), token)
+                return
+            if spec.at_end is not None:
+                spec.at_end(NS(scope, old, {"idx": k}), token)
+            self._check_inv(spec, scope, old, {"idx": mk_int(k.t + 1)}, "preserve", key)
+            raise PathEnd("loop preservation path")
+        else:
+            CTX.assume(k.t == _zint(n))
+            self._assume_inv(spec, scope, old, {"idx": k})
+
     def _opaque_loop(self, s, scope, it, spec, key):
         """iteration over something of unknown length and content: the body is executed once from
         an arbitrary state (every assigned variable havoced); sound for claims that are local to
         one iteration.  With a spec, its invariant is assumed/checked as usual."""
         old = self._snapshot_old(scope)
         tnames = _assigned_names([ast.Expr(s.target)])
-        assigned = _assigned_names(s.body) | (set(spec.modifies) if spec else set()) | tnames
+        assigned = _assigned_names(s.body) | (set(spec.modifies) if spec else set()) | tnames | self._mutated_lists(s.body, scope)
         if spec is None:
             changed = (_assigned_names(s.body) | _mutated_names(s.body)) - tnames
             if changed:
@@ -1562,7 +1602,7 @@ class Interp:
                     raise OutOfSubset("while loop does not terminate concretely")
             return
         old = self._snapshot_old(scope)
-        assigned = _assigned_names(s.body) | set(spec.modifies)
+        assigned = _assigned_names(s.body) | set(spec.modifies) | self._mutated_lists(s.body, scope)
         self._check_inv(spec, scope, old, {}, "init", key)
         which = CTX.choose(2)
         self._havoc(scope, assigned, spec)
